@@ -160,7 +160,7 @@ class Ipmi(bmc.Bmc, chassis.Chassis, dcmi.Dcmi, fru.Fru, picmg.Picmg, hpm.Hpm,
            sdr.Sdr, sensor.Sensor, event.Event, sel.Sel, lan.Lan,
            messaging.Messaging):
 
-    def __init__(self, interface=None, target=None, session=Session(),
+    def __init__(self, interface=None, target=None, session=None,
                  requester=NullRequester()):
         self._interface = interface
 
